@@ -206,6 +206,8 @@ def check(ctx):
     # start_with(v) reaches every animated property of a generated timeline (C17/G6)
     from rules import derive_rules
     derive_rules.rule_blend_wiring(ctx, "R5")
+    # ... and the generated update evaluates every property whenever there is a frame, also before the delay (C01/R5)
+    derive_rules.rule_wiring(ctx, "R5")
     from rules import c12
     c12.check_loop_method(ctx, ctx.facts, "R4", "update", mutable=False)
     c12.check_loop_method(ctx, ctx.facts, "R4", "start_with", mutable=True)
